@@ -52,6 +52,14 @@ HISTORY = {
     'R7-D': 'seventh round (area: locks of the streaming write path); caught at the first trial (race detector run of the sched suite, and the replay: foreign unlock)',
     'R7-E': 'seventh round (area: end of a compressed message); caught at the first trial (cut sweep inside the final frame of compressed messages)',
     'R7-F': 'seventh round (area: limitReader.Read); caught at the first trial (limit+1 bytes ending in a BFINAL block)',
+    'R8-A': 'eighth round (area: Dial with compression disabled); caught at the first trial (hs-dial grid: unsolicited permessage-deflate answer x mode disabled)',
+    'R8-B': 'eighth round (area: per-direction context takeover). First trial: MISSED by C14 (caught by C03: wire-in streams with asymmetric options) — two endpoints of this library never negotiate an asymmetric agreement, and C14 had only library-library exchanges → suites `agree-in` / `agree-out` (every flag combination x both roles, a reference peer that applies the agreement, repeated text so that later messages refer back); the translator now also reads both flateContextTakeover functions (`C14_reader_takeover_is_source`, `C14_writer_takeover_is_source`), which this change breaks as well',
+    'R8-C': 'eighth round (area: authenticateOrigin, Host fed to the glob matcher); caught at the first trial (hs-accept grid: IPv6-literal hosts) — the translator (Gen/OriginCode.v) refuses the changed function too',
+    'R8-D': 'eighth round (area: wsjson.Read fast path for RawMessage); caught at the first trial (raw targets re-compared after later reads)',
+    'R8-E': 'eighth round (area: NetConn deadlines in the past); caught at the first trial (`active-setpast`)',
+    'R8-F': 'eighth round (area: Close / CloseNow state); caught at the first trial (close suite: CloseNow after a returned Close)',
+    'R8-G': 'eighth round (area: readFramePayload short reads); caught at the first trial (control-frame payload split across transport reads)',
+    'R8-H': 'eighth round (area: matching of Pongs by number instead of by payload); caught at the first trial (near-miss Pong payloads: zero padded)',
     'R2-C19': 'second round. Caught at the first trial, but only by chance (two wsjson cases of the same run happened to share the doubly pooled buffer): the final regression over all seeded changes missed it once → wsjson kind `overlap` (a rejected document, then two overlapping reads on other connections under GOMAXPROCS(1)) makes it deterministic',
     'R2-C04': 'second round, first trial: MISSED (the sweep of cut offsets used only 7-bit frame lengths) → header-region cut sweep over every length encoding and order (16-bit first on a fresh connection, after a 64-bit one, after a multiple of 256), both roles, both endings',
     'R2-C07': 'second round, first trial: MISSED (the suite always read a message to its end before the next one) → histories that start the next message after reading only a prefix of a small compressed one (`msgnf` / `plainnf`); the replay then reports `put-by-non-holder`',
